@@ -634,6 +634,7 @@ def stmtRoots : GStmt → List GExpr
   | .fieldAssign t v => [t, v]
   | .ptrAssign p v => [p, v]
   | .indexAssign a i v => [a, i, v]
+  | .ret (some (.voidv _)) => []      -- `return` + nothing: a bare return
   | .ret (some e) => [e]
   | .ret none => []
   | .loop body => stmtsRoots body
